@@ -83,6 +83,7 @@ type AtStmt struct {
 	Name      string
 	C         *Clause
 	Used      bool
+	PassVars  []string // pass: names of the callee schema's bound variables
 }
 
 type macroDef struct {
@@ -428,6 +429,29 @@ func (cs *ContractSet) ParseFile(path string, pkgPath string) {
 					as.Name = as.C.E.Args[0].Tok
 				} else {
 					fail("inst needs NAME(args)")
+					continue
+				}
+			} else if strings.HasPrefix(stmt, "pass ") {
+				// pass CALLEEFACT(v1, v2) := OWNFACT(e1, ..): how a precondition schema of the callee at this call is
+				// justified by a schema of this unit (bound variables v_i of the callee's schema may occur in the e_j)
+				kv := strings.SplitN(strings.TrimPrefix(stmt, "pass "), ":=", 2)
+				if len(kv) != 2 {
+					fail("pass needs CALLEEFACT(vars) := OWNFACT(args)")
+					continue
+				}
+				lhs, err := ParseExpr(strings.TrimSpace(kv[0]))
+				if err != nil || lhs.Op != "call" || lhs.Args[0].Op != "id" {
+					fail("pass: bad left-hand side")
+					continue
+				}
+				as.Kind = "pass"
+				as.Name = lhs.Args[0].Tok
+				for _, a := range lhs.Args[1:] {
+					as.PassVars = append(as.PassVars, a.Tok)
+				}
+				as.C = mkClause(strings.TrimSpace(kv[1]))
+				if as.C == nil || as.C.E.Op != "call" || as.C.E.Args[0].Op != "id" {
+					fail("pass: right-hand side must be OWNFACT(args)")
 					continue
 				}
 			} else if strings.HasPrefix(stmt, "mark ") {
